@@ -63,6 +63,13 @@ func TestVerifC06C(t *testing.T) {
 				t.Fatal(err)
 			}
 		}
+		// cache loss between fetch and copy: in two scenarios of three every Get fails with
+		// probability 1/lossEvery, as if the entry had been evicted and deleted in between (real caches
+		// of this size only move entries from memory to disk, they never lose them)
+		lossEvery := uint64([]int{0, 3, 7}[rnd.Intn(3)])
+		if lossEvery > 0 {
+			bc = &verifLossyCache{BlobCache: bc, every: lossEvery, salt: rnd.Uint64()}
+		}
 		res := NewResolver(config.BlobConfig{ChunkSize: chunk, PrefetchChunkSize: prefetchChunk, ValidInterval: 3600, FetchTimeoutSec: 10}, nil)
 		refspec, _ := reference.Parse(reg.RegHost + "/img/test:latest")
 		bl, err := res.Resolve(context.Background(), reg.Hosts(nil), refspec, ocispec.Descriptor{Digest: dgst, Size: size}, bc)
@@ -128,8 +135,28 @@ func TestVerifC06C(t *testing.T) {
 		out.Count("scenario")
 		out.Stats["ok-reads"] += int(okReads)
 		out.Stats["err-reads"] += int(errReads)
-		out.Distinct(fmt.Sprintf("%d/%d/%d/%d/%d", size, chunk, prefetchChunk, cacheKind, nworkers))
-		out.Comment(fmt.Sprintf("scenario size=%d chunk=%d pchunk=%d cache=%d workers=%d", size, chunk, prefetchChunk, cacheKind, nworkers))
+		if lossEvery > 0 {
+			out.Count("scenario-lossy-cache")
+		}
+		out.Distinct(fmt.Sprintf("%d/%d/%d/%d/%d/%d", size, chunk, prefetchChunk, cacheKind, nworkers, lossEvery))
+		out.Comment(fmt.Sprintf("scenario size=%d chunk=%d pchunk=%d cache=%d workers=%d loss=%d", size, chunk, prefetchChunk, cacheKind, nworkers, lossEvery))
 		bl.Close()
 	}
+}
+
+// verifLossyCache makes Get fail pseudo-randomly (deterministic in the call count), modelling an
+// entry that disappeared between the fetch that stored it and the copy that wants it.
+type verifLossyCache struct {
+	cache.BlobCache
+	every uint64
+	salt  uint64
+	n     uint64
+}
+
+func (c *verifLossyCache) Get(key string, opts ...cache.Option) (cache.Reader, error) {
+	n := atomic.AddUint64(&c.n, 1)
+	if ((n*0x9E3779B97F4A7C15+c.salt)>>33)%c.every == 0 {
+		return nil, fmt.Errorf("verif: cache entry %q lost", key)
+	}
+	return c.BlobCache.Get(key, opts...)
 }
